@@ -207,6 +207,16 @@ func c19Script(r *rand.Rand, x *model.XSeg, others []segment.Segment) []c19Op {
 						// the end, never a panic (a panic here escapes to the oracle as a violation)
 						it.Next()
 						it.Next()
+						// ... also after handing it a new "actual" bitmap (what a searcher's optimisation pass does); general lists only
+						if one, _, _ := ice.VerifPostingsInfo(pl); !one {
+							if opt, isOpt := it.(segment.OptimizablePostingsIterator); isOpt {
+								if ab := opt.ActualBitmap(); ab != nil {
+									opt.ReplaceActual(ab.Clone())
+									it.Next()
+									it.Next()
+								}
+							}
+						}
 						return b.String(), false, err // what was delivered before the error is checked against the healthy prefix
 					}
 					if p == nil {
